@@ -305,52 +305,59 @@ func (mr *multiRun) benchOf(t int) *benchmark.Benchmark {
 			mr.failed = true
 			return nil
 		}
-		func() {
-			defer func() {
-				if r := recover(); r != nil {
-					mr.viol("benchmark-builder-panics", fmt.Sprintf("BenchmarkBuilder panicked on trace %d (%s): %s", t, td.Name, panicText(r)), nil)
-					bm = nil
-				}
-			}()
-			bm = new(benchmark.BenchmarkBuilder).WithTraceDirectory(dir).Build()
-		}()
-		if bm == nil {
+		var key, what string
+		bm, key, what = buildFromDir(td, dir)
+		if key != "" {
+			tag := ""
+			if !td.C.Style.Form.canonical() {
+				tag = blameForm(td.C, func(d string) bool { _, k, _ := buildFromDir(td, d); return k != "" })
+			}
+			if tag != "" {
+				what = "[serialisation form " + tag + "] " + what
+			}
+			mr.viol(formKey(key, "benchmark|", tag), fmt.Sprintf("trace %d (%s), built after %d other benchmark(s) in this process: %s", t, td.Name, mr.built(), what),
+				map[string]any{"form": td.C.Style.Form, "form_blamed": tag})
 			return nil
 		}
 		mr.rec.Count("multi_file_benchmarks_built", 1)
+		countForm(mr.rec, td.C)
 	}
-	// the benchmark must carry exactly the executions of the description, in order
-	var kds []*kernelD
-	nExec := 0
-	rep := td.Repeat
-	if rep < 1 || !td.Mock {
-		rep = 1
+	mr.bench[t] = bm
+	mr.wants[t] = td.want()
+	return bm
+}
+
+// buildFromDir builds the benchmark of a trace directory through
+// BenchmarkBuilder and compares it with the description: the benchmark must
+// carry exactly the executions of the description, in order. key "" = equal.
+func buildFromDir(td *traceD, dir string) (bm *benchmark.Benchmark, key, what string) {
+	func() {
+		defer func() {
+			if r := recover(); r != nil {
+				bm, key, what = nil, "benchmark|builder-panics", "BenchmarkBuilder panicked: "+panicText(r)
+			}
+		}()
+		bm = new(benchmark.BenchmarkBuilder).WithTraceDirectory(dir).Build()
+	}()
+	if bm == nil {
+		return
 	}
-	for r := 0; r < rep; r++ {
-		for _, e := range td.C.Execs {
-			kds = append(kds, e.Kernel)
-			nExec++
-		}
+	if len(bm.TraceExecs) != len(td.C.Execs) {
+		return nil, "benchmark|exec-count", fmt.Sprintf("kernelslist.g has %d executions, the benchmark %d", len(td.C.Execs), len(bm.TraceExecs))
 	}
-	if len(bm.TraceExecs) != nExec {
-		mr.viol("benchmark|exec-count", fmt.Sprintf("trace %d (%s) has %d executions, its benchmark %d", t, td.Name, nExec, len(bm.TraceExecs)), nil)
-		return nil
-	}
-	for i, kd := range kds {
+	for i, e := range td.C.Execs {
 		te := bm.TraceExecs[i]
-		if kd == nil {
+		if e.Kernel == nil {
 			if te.ExecType() != nvidiaconfig.ExecMemcpy {
-				mr.viol("benchmark|exec-type", fmt.Sprintf("trace %d (%s): execution %d is a memcpy in the trace, a kernel in the benchmark", t, td.Name, i), nil)
-				return nil
+				return nil, "benchmark|exec-type", fmt.Sprintf("execution %d is a memcpy in the trace, a kernel in the benchmark", i)
 			}
 			continue
 		}
 		ek, ok := te.(*benchmark.ExecKernel)
 		if !ok {
-			mr.viol("benchmark|exec-type", fmt.Sprintf("trace %d (%s): execution %d is a kernel in the trace, not in the benchmark", t, td.Name, i), nil)
-			return nil
+			return nil, "benchmark|exec-type", fmt.Sprintf("execution %d is a kernel in the trace, not in the benchmark", i)
 		}
-		want := descKernel(kd)
+		want := descKernel(e.Kernel)
 		got := ek.GetKernel()
 		bad := got.ThreadblocksCount != want.ThreadblocksCount || kernelSig(got) != kernelSig(&want)
 		for bi := range got.Threadblocks {
@@ -359,15 +366,10 @@ func (mr *multiRun) benchOf(t int) *benchmark.Benchmark {
 			}
 		}
 		if bad {
-			mr.viol("benchmark|kernel-shape", fmt.Sprintf("trace %d (%s) kernel %s: benchmark blocks/warps/instruction counts %q differ from the trace %q "+
-				"(the benchmark was built after %d other benchmark(s) in this process)", t, td.Name, kd.File, clip(kernelSig(got)), clip(kernelSig(&want)), mr.built()),
-				nil)
-			return nil
+			return nil, "benchmark|kernel-shape", fmt.Sprintf("kernel %s: benchmark blocks/warps/instruction counts %q differ from the trace %q", e.Kernel.fileWritten(), clip(kernelSig(got)), clip(kernelSig(&want)))
 		}
 	}
-	mr.bench[t] = bm
-	mr.wants[t] = td.want()
-	return bm
+	return bm, "", ""
 }
 
 func (mr *multiRun) built() int {
